@@ -117,6 +117,22 @@ func (pc *pooledConnectImpl) FetchMoreRows(result *mysql.Result, maxRows int) er
 	return err
 }
 
+// RemainingRowsFetcher is implemented by connections that can append to a result the chunks Execute
+// left unread (Execute stops after 16 MiB of rows so that single results can be streamed)
+type RemainingRowsFetcher interface {
+	FetchRemainingRows(result *mysql.Result, maxRows int) error
+}
+
+// FetchRemainingRows reads the rest of the current result into result; maxRows limits the whole result
+func (pc *pooledConnectImpl) FetchRemainingRows(result *mysql.Result, maxRows int) error {
+	for pc.MoreRowsExist() {
+		if err := pc.FetchMoreRows(result, maxRows); err != nil {
+			return err
+		}
+	}
+	return nil
+}
+
 func (pc *pooledConnectImpl) ReadMoreResult(maxRows int) (*mysql.Result, error) {
 	// set default to false
 	pc.moreResultsExist = false
